@@ -31,13 +31,13 @@ def main(tier, replay=None):
                         "the same_condition rings of mu.c use splice_after and manual unlinking; only splice_after is covered here"]
     sizes = [(5, 2)] if tier == "quick" else [(5, 2), (6, 2), (4, 3)]
     for ne, nl in sizes:
-        cfg = os.path.join(BUILD, "tlc", "MC_Dll.cfg")
+        cfg = os.path.join(WORK, "tlc", "MC_Dll.cfg")
         write_cfg(cfg, "Spec", dict(NE=ne, NL=nl), ["DllOK"], constraints=["InitPrint"], action_constraints=["Edge"], extra="VIEW View\n")
         g, info = tlcgraph.run_tlc_graph(os.path.join(SPEC, "Dll.tla"), cfg, workers=8, cwd=SPEC)
         if not info["ok"]:
             raise ToolFailure("TLC on Dll.tla: " + "\n".join(info["log"][-30:]))
         tours = tlcgraph.build_tours(g)
-        sched = os.path.join(BUILD, "tlc", "dll.sched")
+        sched = os.path.join(WORK, "tlc", "dll.sched")
         init = "NE=%d NL=%d" % (ne, nl)
         steps = tlcgraph.write_schedule(sched, g, tours, init, obs_fmt=lambda o: tlcgraph.fmt_obs(o))
         # labels come out of ToString with quotes: strip them
@@ -60,12 +60,12 @@ def main(tier, replay=None):
     run.cov["exhaustive"] = True
     # random longer sequences, 8 elements
     num, depth = (40, 40) if tier == "quick" else (400, 80)
-    cfg = os.path.join(BUILD, "tlc", "Sim_Dll.cfg")
+    cfg = os.path.join(WORK, "tlc", "Sim_Dll.cfg")
     write_cfg(cfg, "SpecS", dict(NE=8, NL=2, D=depth), ["DllOK"], constraints=["Emit"])
     hists, sinfo = tlcgraph.run_tlc_sim(os.path.join(SPEC, "DllSim.tla"), cfg, num=num, depth=depth + 1, workers=4, seed=seed(), cwd=SPEC)
     if not hists:
         raise ToolFailure("TLC simulation of DllSim produced no behaviours: " + "\n".join(sinfo["log"][-20:]))
-    sched = os.path.join(BUILD, "tlc", "dllsim.sched")
+    sched = os.path.join(WORK, "tlc", "dllsim.sched")
     steps = sched_from_hists(sched, hists, "NE=8 NL=2")
     res = run_harness(exe, [sched, REPLAYS])
     st = res["stats"]
